@@ -787,9 +787,30 @@ def rule_in_sample(ctx, repo):
         return
     scls, vals = seen["splitter"]
     cut = vals.get("cutoffs")
-    ctx.check(isinstance(cut, Vec) and cut == Vec("fh", N - 2) if isinstance(cut, (Vec, Opq)) else None, "R4", tag + ":cutoffs",
-              "cutoffs = relative fh + len(y) - 2", "cutoffs are %r, expected relative fh + len(y) - 2" % (cut,), loc,
-              witness={"cutoffs": repr(cut)})
+    if isinstance(cut, Rng):
+        # a progression can only equal fh + len(y) - 2 for contiguous horizons: look for a gapped witness
+        wit = None
+        for fhv in ([-3, 0], [-2, 0], [-4, -1]):
+            env = Env({"n": 9, "w": 2, "T": 30}, {"fh": fhv})
+            try:
+                lo, hi, stp = int(env.eval(cut.lo)), int(env.eval(cut.hi)), int(env.eval(cut.step))
+                got = list(range(lo, hi, stp)) if stp > 0 else None
+            except Uneval:
+                continue
+            want = [h + 9 - 2 for h in fhv]
+            if got != want:
+                wit = {"n": 9, "fh": fhv, "cutoffs": got, "expected": want}
+                break
+        if wit:
+            ctx.violation("R4", tag + ":cutoffs", "cutoffs are the progression %r; for an in-sample horizon with gaps they are not "
+                          "relative fh + len(y) - 2 (predictions are made from the wrong cutoffs and labelled with the requested ones); "
+                          "witness %s" % (cut, witness_text(wit)), loc, witness=wit)
+        else:
+            ctx.undecided("R4", tag + ":cutoffs", "cutoffs are the progression %r" % (cut,), loc)
+    else:
+        ctx.check(isinstance(cut, Vec) and cut == Vec("fh", N - 2) if isinstance(cut, (Vec, Opq)) else None, "R4", tag + ":cutoffs",
+                  "cutoffs = relative fh + len(y) - 2", "cutoffs are %r, expected relative fh + len(y) - 2" % (cut,), loc,
+                  witness={"cutoffs": repr(cut)})
     mv = seen["moving"]
     ctx.check(mv.get("y") is ytrain, "R4", tag + ":series", "the moving-cutoff predictions run over the training series",
               "the series handed to _predict_moving_cutoff is %r, not the remembered training series" % (mv.get("y"),), loc)
@@ -1094,6 +1115,8 @@ def rule_time_axis(ctx, repo):
     ap = repo.func(SMA, "_StatsModelsAdapter._predict")
     seen.clear()
 
+    Y0 = Lin.sym("y.index[0]")
+
     def hooks2(interp, frame, call, fname, args, kwargs, st):
         if isinstance(call.func, ast.Attribute) and call.func.attr == "predict":
             recv = interp.ev(call.func.value, st, frame)
@@ -1104,8 +1127,20 @@ def rule_time_axis(ctx, repo):
                     if i < len(names):
                         b[names[i]] = a
                 b.update(kwargs)
+                b["facts"] = st.facts.copy()
                 seen.setdefault("sm-predict", []).append(b)
+                s_, e_ = as_lin_val(b.get("start")), as_lin_val(b.get("end"))
+                if s_ is not None and e_ is not None:
+                    # the statsmodels forecast: one value per integer time start .. end
+                    return Ser("forecast", e_ - s_ + 1, e_)
                 return Opq("sm-forecast")
+        if isinstance(call.func, ast.Attribute) and call.func.attr in ("to_pandas", "to_numpy"):
+            recv = interp.ev(call.func.value, st, frame)
+            if isinstance(recv, Opq) and recv.tag == "absolute-horizon":
+                return recv
+        ext = interp.ext_name(fname, frame)
+        if ext == "pandas.Series":
+            return Opq("series", [args[0] if args else kwargs.get("data"), kwargs.get("index", args[1] if len(args) > 1 else None)])
         return hooks(interp, frame, call, fname, args, kwargs, st)
 
     class SInterp(TInterp):
@@ -1113,23 +1148,103 @@ def rule_time_axis(ctx, repo):
             base = self.ev(e.value, st, frame)
             if isinstance(base, Opq) and base.tag == "absolute-int-horizon" and isinstance(e.slice, ast.List):
                 idx = [as_lin_val(self.ev(x, st, frame)) for x in e.slice.elts]
+                tas = seen.get("to_absolute_int", [])
+                if all(i is not None and i.is_const() and i.const in (0, -1) for i in idx) and tas \
+                        and tas[-1][1].get("start") == Y0 and tas[-1][1].get("cutoff") == T and tas[-1][0] == FH:
+                    # integer time of the first / last requested step on the axis that is 0 at the first training index
+                    return Tup([(FH0 if i.const == 0 else FHL) + T - Y0 for i in idx])
                 if all(i is not None and i.is_const() for i in idx):
                     return Tup([Opq("horizon-elem", [base, int(i.const)]) for i in idx])
             return super().ev_Subscript(e, st, frame)
 
+        def getattr(self, base, attr, e_, st, frame):
+            if isinstance(base, Ser) and base.name == "forecast" and attr == "index":
+                return Opq("index-of", [base])
+            return super().getattr(base, attr, e_, st, frame)
+
     it3 = SInterp(repo, scenario={}, hooks=hooks2, no_inline=NO_INLINE)
     sv = SelfV(acls, {"_y": ytr, "_cutoff": T, "_fh": FH, "_fitted_forecaster": Opq("fitted-statsmodels"), "_is_fitted": K(True)})
-    it3.run_function(Frame(acls.module, ap, acls, acls), {"self": sv, "fh": FH, "X": K(None), "return_pred_int": K(False)}, State())
+    f0 = Facts()
+    f0.add_cmp(FH0, "<=", FHL, "horizon is sorted")
+    f0.add_cmp(N, "==", T - Y0 + 1, "regular training index: len(y) == last - first + 1")
+    tr3, _ = it3.run_function(Frame(acls.module, ap, acls, acls), {"self": sv, "fh": FH, "X": K(None), "return_pred_int": K(False)}, State(facts=f0))
     loca = ctx.loc(acls.module, ap)
     check_abs_int(ctx, "_StatsModelsAdapter:predict", loca, seen, "y")
     sp_ = seen.get("sm-predict", [])
+    envs = []
+    for fhv in ([1], [2, 3], [-2, 1], [0, 2], [-3, -1]):
+        envs.append(Env({"T": 20, "y.index[0]": 5, "n": 16}, {"fh": fhv}))
     good = None
     if len(sp_) == 1:
         s_, e_ = sp_[0].get("start"), sp_[0].get("end")
         if isinstance(s_, Opq) and isinstance(e_, Opq) and s_.tag == e_.tag == "horizon-elem":
             good = s_.args[1] == 0 and e_.args[1] == -1 and s_.args[0] == e_.args[0]
-    ctx.check(good, "R5", "_StatsModelsAdapter:start-end", "statsmodels predicts from the first to the last requested step (start=fh[0], end=fh[-1])",
-              "statsmodels predict receives %r" % (sp_,), loca)
+            ctx.check(good, "R5", "_StatsModelsAdapter:start-end", "statsmodels predicts from the first to the last requested step (start=fh[0], end=fh[-1])",
+                      "statsmodels predict receives %r" % (sp_,), loca)
+        elif as_lin_val(s_) is not None and as_lin_val(e_) is not None:
+            pf = sp_[0]["facts"]
+            first, last = FH0 + T - Y0, FHL + T - Y0
+            ob = Ob(ctx, "R5", "_StatsModelsAdapter:start-end", loca)
+            proved = entails(pf, as_lin_val(s_) - first) and entails(pf, last - as_lin_val(e_))
+            wit = None
+            for env in ([] if proved else envs):
+                try:
+                    if env.eval(s_) > env.eval(first) or env.eval(e_) < env.eval(last):
+                        wit = dict(env.describe(), start=str(env.eval(s_)), end=str(env.eval(e_)), first_requested=str(env.eval(first)),
+                                   last_requested=str(env.eval(last)))
+                        break
+                except Uneval:
+                    continue
+            ob.settle(proved, wit, "the statsmodels forecast covers the first to the last requested time point",
+                      "the statsmodels forecast [start, end] does not cover every requested time point")
+        else:
+            ctx.undecided("R5", "_StatsModelsAdapter:start-end", "statsmodels predict receives %r" % ({k: v for k, v in sp_[0].items() if k != "facts"},), loca)
+    else:
+        ctx.undecided("R5", "_StatsModelsAdapter:start-end", "expected one statsmodels predict call, found %d" % len(sp_), loca)
+    # what is returned: the requested time points, selected by label or by the right position
+    rets = [(st_, o[1]) for st_, o in tr3 if o[0] == "return"]
+    c_ = "_StatsModelsAdapter:selection"
+    if len(rets) != 1:
+        ctx.undecided("R5", c_, "%d normal returns" % len(rets), loca)
+    else:
+        st_, rv = rets[0]
+
+        def is_abs(v):
+            return isinstance(v, Opq) and v.tag == "absolute-horizon" and v.args and v.args[0] == FH and len(v.args) > 1 and v.args[1] == T
+
+        if isinstance(rv, Opq) and rv.tag == "index" and len(rv.args) == 2 and isinstance(rv.args[0], Opq) and rv.args[0].tag == "attr:loc" \
+                and rv.args[0].args and isinstance(rv.args[0].args[0], Ser) and rv.args[0].args[0].name == "forecast":
+            ctx.check(is_abs(rv.args[1]), "R5", c_, "the requested time points are selected from the statsmodels forecast by label",
+                      "the forecast is label-selected with %r, not with the absolute requested horizon" % (rv.args[1],), loca)
+        elif isinstance(rv, Opq) and rv.tag == "series" and isinstance(rv.args[0], View) and rv.args[0].ndim == 1 \
+                and rv.args[0].spec[0][0] == "ga" and isinstance(rv.args[0].base, Ser) and rv.args[0].base.name == "forecast":
+            g = rv.args[0].spec[0][2]
+            fc = rv.args[0].base
+            start = fc.first  # integer time of position 0 of the forecast
+            j = Lin.sym("j")
+            q = Q(st_.facts.copy())
+            got = start + q.vec_elem(g, j)          # time of the element picked for step j
+            want = q.vec_elem(Vec("fh"), j) + T - Y0  # its requested time
+            diff = got - want
+            proved = q.eq(diff, ZERO) is True and is_abs(rv.args[1])
+            wit = None
+            for env in ([] if proved else envs):
+                try:
+                    for jj, h in enumerate(env.vecs["fh"]):
+                        d = env.eval(diff.subst({"fh[@j]": Lin.c(h)}))
+                        if d != 0:
+                            wit = dict(env.describe(), step=h, picked_time=str(env.eval(want.subst({"fh[@j]": Lin.c(h)})) + d),
+                                       requested_time=str(env.eval(want.subst({"fh[@j]": Lin.c(h)}))))
+                            break
+                except Uneval:
+                    continue
+                if wit:
+                    break
+            Ob(ctx, "R5", c_, loca).settle(proved, wit, "the value returned for step h is the statsmodels forecast of time cutoff + h",
+                                            "the forecast is selected by position %r relative to its own start: for horizons that start "
+                                            "in-sample the value returned for step h is not the forecast of time cutoff + h" % (g,))
+        else:
+            ctx.undecided("R5", c_, "returned value not interpretable: %r" % (rv,), loca)
 
 
 def check_abs_int(ctx, tag, loc, seen, yname):
@@ -1369,5 +1484,5 @@ def run(ctx):
     ctx.floor("R2", 40)
     ctx.floor("R3", 8)
     ctx.floor("R4", 12)
-    ctx.floor("R5", 14)
+    ctx.floor("R5", 15)
     ctx.floor("R6", 80)
